@@ -4,7 +4,7 @@ open Model
 open Util
 
 let parse line = match String.split_on_char '\t' line with
-  | [p; m; s] -> (List.map unhexb (String.split_on_char ',' p), n_of_int (int_of_string m), unhexb s)
+  | [p; m; s] -> ((if p = "-" then [] else List.map unhexb (String.split_on_char ',' p)), n_of_int (int_of_string m), unhexb s)
   | _ -> failwith "c12: bad case"
 
 let fmt_m = function
